@@ -17,6 +17,27 @@ Proof.
   - apply IH. intros a' b' Ha Hb. apply H; right; assumption.
 Qed.
 
+(* a sub-day suffix is neither empty nor a complete end *)
+Lemma end_partial_not_full tp : end_partial tp = true -> end_fields tp <> [] /\ end_full tp = false.
+Proof.
+  unfold end_partial, end_full. cbv zeta. intro Hp. apply andb_true_iff in Hp. destruct Hp as [Hp _].
+  apply andb_true_iff in Hp. destruct Hp as [Hne Hsub]. split.
+  - intro E. rewrite E in Hne. discriminate.
+  - apply not_true_is_false. intro Hf. apply andb_true_iff in Hf. destruct Hf as [Hdate _].
+    unfold has_date in Hdate. apply andb_true_iff in Hdate. destruct Hdate as [Hy _].
+    rewrite forallb_forall in Hsub. apply orb_true_iff in Hy. unfold has in Hy.
+    destruct Hy as [Hy|Hy]; apply existsb_exists in Hy; destruct Hy as (f & Hin & Hf);
+      specialize (Hsub f Hin); destruct f; cbn in Hf, Hsub; discriminate.
+Qed.
+
+Lemma start_okb_sound tp s : start_okb tp s = true -> start_ok tp s.
+Proof.
+  unfold start_okb, start_ok. intro H. apply andb_true_iff in H. destruct H as [H H4].
+  apply andb_true_iff in H. destruct H as [H H3]. apply andb_true_iff in H. destruct H as [H H2].
+  apply andb_true_iff in H. destruct H as [H H1]. apply validb_iff in H.
+  split; [exact H|]. split; [exact H1|]. split; [exact H2|]. split; [exact H3|exact H4].
+Qed.
+
 Section Proofs.
 Variables Data Bytes : Type.
 Variable enc : Z -> Z -> Data -> option Bytes.
@@ -487,6 +508,265 @@ Proof.
   split; [apply nodupb_sound; assumption|]. split; [apply nodupb_sound; assumption|].
   intros q Hin. match goal with Hf : forallb _ _ = true |- _ => rewrite forallb_forall in Hf; specialize (Hf q Hin) end.
   unfold fresh in *. destruct (dlook q d); [discriminate|reflexivity].
+Qed.
+
+
+(* ------------------------------------------------------------------ written files are found: every way of spelling the end *)
+
+(* whatever a selection reports, it reports under the times and attributes the file's name parses to *)
+Lemma entries_parsed (F : fset) sl (d : disk) en : In en (entries F sl d) ->
+  finfo F (e_path en) = Ok (e_s en, e_e en, e_attr en).
+Proof.
+  intro H. assert (H' : exists p, In en (entry_of F p)).
+  { unfold C11_fsops.entries in H. destruct (s_files sl) as [ps|].
+    - apply in_flat_map in H. destruct H as (p & _ & H0). eauto.
+    - apply filter_In in H. destruct H as [H0 _]. apply in_flat_map in H0. destruct H0 as (p & _ & H0). eauto. }
+  clear H. destruct H' as (p & H). unfold entry_of in H. destruct (finfo F p) as [[[s e] a]|er] eqn:E; [|contradiction].
+  destruct H as [<-|[]]. cbn [e_path e_s e_e e_attr]. exact E.
+Qed.
+
+Lemma found_exactly (F : fset) sl (d : disk) p s e at_ en : finfo F p = Ok (s, e, at_) ->
+  In en (entries F sl d) -> e_path en = p -> en = En p s e at_.
+Proof.
+  intros Hi Hin Hp. apply entries_parsed in Hin. rewrite Hp, Hi in Hin. destruct en as [p' s' e' a']. cbn in *.
+  injection Hin as -> -> ->. subst p'. reflexivity.
+Qed.
+
+Lemma not_found_when_rejected (F : fset) sl (d : disk) p er en : finfo F p = Error er ->
+  In en (entries F sl d) -> e_path en <> p.
+Proof. intros Hi Hin Hp. apply entries_parsed in Hin. rewrite Hp, Hi in Hin. discriminate. Qed.
+
+Lemma found_of_info (F : fset) x p (d d' : disk) s e at_ a b : finfo F p = Ok (s, e, at_) ->
+  write_file F x p d = Good d' -> s <= b - 1 -> a <= e -> In (En p s e at_) (entries F (Sel a b [] [] None) d').
+Proof.
+  intros Hi Hw Hb Ha.
+  unfold C11_fsops.write_file in Hw. destruct (encode F x p) as [c|]; [|discriminate]. injection Hw as <-.
+  unfold C11_fsops.entries. cbn [s_files]. apply filter_In. split.
+  - apply in_flat_map. exists p. split; [cbn; left; reflexivity|]. unfold entry_of. rewrite Hi. left. reflexivity.
+  - unfold selected_by. cbn [e_s e_e e_attr s_start s_stop s_white s_black white_ok black_ok forallb].
+    rewrite !andb_true_r. apply andb_true_iff. split; apply Z.leb_le; assumption.
+Qed.
+
+Notation fcfg F := (Cfg ViaFilename (cov F) None None []).
+
+(* only sub-day end fields: the hypotheses are exactly those of C02.roundtrip_end_partial *)
+Theorem written_is_found_partial_thm (F : fset) x s e fill p (d d' : disk) :
+  start_ok (tpl F) s -> valid e -> s <= e -> end_partial (tpl F) = true -> deterministic fill (tpl F) = true ->
+  render (tpl F) s e fill = Ok p -> write_file F x p d = Good d' ->
+  exists r at_, complete (tpl F) (fields s) (fields e) = Some r /\ attrs_are fill (tpl F) at_ /\
+    let e' := roll (unit_above (tpl F)) s r in
+    if validb e'
+    then finfo F p = Ok (s, e', at_) /\
+         (forall a b, s <= b - 1 -> a <= e' -> In (En p s e' at_) (entries F (Sel a b [] [] None) d')) /\
+         (forall sl en, In en (entries F sl d') -> e_path en = p -> en = En p s e' at_)
+    else finfo F p = Error EOverflow /\ (forall sl en, In en (entries F sl d') -> e_path en <> p).
+Proof.
+  intros Hs Ve Hse Hpart Hdet Hren Hw.
+  destruct (roundtrip_end_partial_le_thm (fcfg F) (tpl F) s e fill p Hs Ve Hse Hpart Hdet eq_refl Hren)
+    as (r & at_ & Hc & Hat & Hi).
+  exists r, at_. split; [exact Hc|]. split; [exact Hat|]. cbv zeta.
+  fold (finfo F p) in Hi. destruct (validb (roll (unit_above (tpl F)) s r)).
+  - split; [exact Hi|]. split.
+    + intros a b Hb Ha. eapply found_of_info; eauto.
+    + intros sl en. apply found_exactly. exact Hi.
+  - split; [exact Hi|]. intros sl en. eapply not_found_when_rejected. exact Hi.
+Qed.
+
+(* the exact class: hypotheses exactly those of C02.roundtrip_end_partial_exact; the period is (s, e) itself *)
+Theorem written_is_found_exact_thm (F : fset) x s e fill p (d d' : disk) a b :
+  start_ok (tpl F) s -> valid e -> end_partial (tpl F) = true -> end_exact (tpl F) (fields e) = true ->
+  0 <= e - s < unit_above (tpl F) -> deterministic fill (tpl F) = true ->
+  render (tpl F) s e fill = Ok p -> write_file F x p d = Good d' -> s <= b - 1 -> a <= e ->
+  exists at_, attrs_are fill (tpl F) at_ /\ finfo F p = Ok (s, e, at_) /\
+              In (En p s e at_) (entries F (Sel a b [] [] None) d') /\
+              (forall sl en, In en (entries F sl d') -> e_path en = p -> en = En p s e at_).
+Proof.
+  intros Hs Ve Hpart Hex Hd Hdet Hren Hw Hb Ha.
+  destruct (end_partial_exact_info_thm (fcfg F) (tpl F) s e fill p Hs Ve Hpart Hex Hd Hdet eq_refl Hren)
+    as (at_ & Hat & Hi).
+  fold (finfo F p) in Hi. exists at_. split; [exact Hat|]. split; [exact Hi|]. split.
+  - eapply found_of_info; eauto.
+  - intros sl en. apply found_exactly. exact Hi.
+Qed.
+
+(* no end fields: hypotheses exactly those of C02.no_end_fields; the period is (s, s + time_coverage) resp. (s, s) *)
+Theorem written_is_found_no_end_thm (F : fset) x s e fill p (d d' : disk) :
+  start_ok (tpl F) s -> valid e -> 1000 <= year (fields e) -> end_fields (tpl F) = [] ->
+  deterministic fill (tpl F) = true -> render (tpl F) s e fill = Ok p -> write_file F x p d = Good d' ->
+  exists at_, attrs_are fill (tpl F) at_ /\
+    match (match cov F with Some c => add s c | None => Some s end) with
+    | Some e' => finfo F p = Ok (s, e', at_) /\
+                 (forall a b, s <= b - 1 -> a <= e' -> In (En p s e' at_) (entries F (Sel a b [] [] None) d')) /\
+                 (forall sl en, In en (entries F sl d') -> e_path en = p -> en = En p s e' at_)
+    | None => finfo F p = Error EOverflow /\ (forall sl en, In en (entries F sl d') -> e_path en <> p)
+    end.
+Proof.
+  intros Hs Ve Hye Hne Hdet Hren Hw.
+  destruct (no_end_fields_thm (fcfg F) (tpl F) s e fill p Hs Ve Hye Hne Hdet eq_refl Hren) as (at_ & Hat & Hi).
+  fold (finfo F p) in Hi. cbn [coverage] in Hi. exists at_. split; [exact Hat|].
+  assert (G : forall e', finfo F p = Ok (s, e', at_) ->
+              finfo F p = Ok (s, e', at_) /\
+              (forall a b, s <= b - 1 -> a <= e' -> In (En p s e' at_) (entries F (Sel a b [] [] None) d')) /\
+              (forall sl en, In en (entries F sl d') -> e_path en = p -> en = En p s e' at_)).
+  { intros e' H. split; [exact H|]. split.
+    - intros a b Hb Ha. eapply found_of_info; eauto.
+    - intros sl en. apply found_exactly. exact H. }
+  destruct (cov F) as [c|].
+  - destruct (add s c) as [e'|]; [apply G; exact Hi|].
+    split; [exact Hi|]. intros sl en. eapply not_found_when_rejected. exact Hi.
+  - apply G. exact Hi.
+Qed.
+
+(* the boolean the harness evaluates per write, and the one statement it stands for *)
+
+Theorem written_is_found_law_thm (F : fset) x s e fill p (d d' : disk) :
+  wif_hyp F s e fill = true -> render (tpl F) s e (fill_of fill) = Ok p -> write_file F x p d = Good d' ->
+  (wif_exact F s e = true -> wif_period F s e = Some e) /\
+  match wif_period F s e with
+  | Some e' => exists at_, attrs_are (fill_of fill) (tpl F) at_ /\ finfo F p = Ok (s, e', at_) /\
+                 (forall a b, s <= b - 1 -> a <= e' -> In (En p s e' at_) (entries F (Sel a b [] [] None) d')) /\
+                 (forall sl en, In en (entries F sl d') -> e_path en = p -> en = En p s e' at_)
+  | None => finfo F p = Error EOverflow /\ (forall sl en, In en (entries F sl d') -> e_path en <> p)
+  end.
+Proof.
+  unfold wif_hyp. cbv zeta. intros H Hren Hw.
+  apply andb_true_iff in H. destruct H as [H Hkind]. apply andb_true_iff in H. destruct H as [H Hdet].
+  apply andb_true_iff in H. destruct H as [H Hse]. apply andb_true_iff in H. destruct H as [Hs Ve].
+  apply start_okb_sound in Hs. apply validb_iff in Ve. apply Z.leb_le in Hse.
+  pose proof Hs as (Vs & _ & Hrg & _).
+  assert (Hye : 1000 <= year (fields e))
+    by exact (Z.le_trans _ _ _ (in_range_1000 _ _ Hrg) (year_mono s e Vs Ve Hse)).  (* not lia: it would drag in every section variable *)
+  pose proof (end_partial_not_full (tpl F)) as Hpart_nonempty.
+  split.
+  { (* the exact class *)
+    unfold wif_exact. intro Hx. apply andb_true_iff in Hx. destruct Hx as [Hx Hlt]. apply andb_true_iff in Hx.
+    destruct Hx as [Hx Hge]. apply andb_true_iff in Hx. destruct Hx as [Hpart Hex].
+    apply Z.leb_le in Hge. apply Z.ltb_lt in Hlt.
+    destruct (end_partial_exact_thm (tpl F) s e Hs Ve Hpart Hex (conj Hge Hlt)) as (r & Hc & Hr).
+    destruct (Hpart_nonempty Hpart) as [Hne Hnf]. unfold wif_period. cbv zeta.
+    destruct (end_fields (tpl F)) as [|f0 ef] eqn:Eef; [contradiction|]. rewrite Hnf, Hc, Hr.
+    apply validb_iff in Ve. rewrite Ve. reflexivity. }
+  apply orb_true_iff in Hkind. destruct Hkind as [Hkind|Hpart]; [apply orb_true_iff in Hkind; destruct Hkind as [Hne|Hfull]|].
+  - (* no end fields *)
+    destruct (end_fields (tpl F)) as [|f0 ef] eqn:Eef; [|discriminate].
+    destruct (written_is_found_no_end_thm F x s e (fill_of fill) p d d' Hs Ve Hye Eef Hdet Hren Hw) as (at_ & Hat & Hm).
+    unfold wif_period. cbv zeta. rewrite Eef.
+    destruct (match cov F with Some c => add s c | None => Some s end) as [e'|]; [exists at_; split; [exact Hat|exact Hm]|exact Hm].
+  - (* a complete end *)
+    apply andb_true_iff in Hfull. destruct Hfull as [Hfull Hnp]. apply andb_true_iff in Hfull. destruct Hfull as [Hfull Har].
+    apply andb_true_iff in Hfull. destruct Hfull as [Hfull Hre].
+    destruct (roundtrip_end_full_thm (fcfg F) (tpl F) s e (fill_of fill) p Hs Ve Hse Hfull Hre Har Hnp Hdet eq_refl Hren)
+      as (at_ & Hat & Hi).
+    fold (finfo F p) in Hi. unfold wif_period. cbv zeta. rewrite Hfull.
+    assert (Hne : end_fields (tpl F) <> []).
+    { intro E. unfold end_full in Hfull. cbv zeta in Hfull. rewrite E in Hfull. cbn in Hfull. discriminate. }
+    destruct (end_fields (tpl F)) as [|f0 ef]; [contradiction|].
+    exists at_. split; [exact Hat|]. split; [exact Hi|]. split.
+    + intros a b Hb Ha. eapply found_of_info; eauto.
+    + intros sl en. apply found_exactly. exact Hi.
+  - (* only sub-day end fields *)
+    destruct (written_is_found_partial_thm F x s e (fill_of fill) p d d' Hs Ve Hse Hpart Hdet Hren Hw)
+      as (r & at_ & Hc & Hat & Hm).
+    destruct (Hpart_nonempty Hpart) as [Hne Hnf]. unfold wif_period. cbv zeta in Hm |- *.
+    destruct (end_fields (tpl F)) as [|f0 ef] eqn:Eef; [contradiction|]. rewrite Hnf, Hc.
+    destruct (validb (roll (unit_above (tpl F)) s r)); [exists at_; split; [exact Hat|exact Hm]|exact Hm].
+Qed.
+
+(* ------------------------------------------------------------------ an explicit selection that is empty *)
+
+Theorem empty_selection_noop_thm (F G : fset) copy conv dry sl (d : disk) : s_files sl = Some [] ->
+  find F sl d = Good [] /\ move F G copy conv sl d = Good d /\ delete F dry sl d = Good d /\
+  step (OMove F G copy conv sl) d = Good (d, VNone) /\ step (ODelete F dry sl) d = Good (d, VNone).
+Proof.
+  intro H. assert (Hf : find F sl d = Good []) by (unfold C11_fsops.find, C11_fsops.entries; rewrite H; reflexivity).
+  assert (Hm : move F G copy conv sl d = Good d) by (unfold C11_fsops.move; rewrite Hf; reflexivity).
+  assert (Hd : delete F dry sl d = Good d) by (unfold C11_fsops.delete; rewrite Hf; destruct dry; reflexivity).
+  split; [exact Hf|]. split; [exact Hm|]. split; [exact Hd|].
+  cbn [C11_fsops.step]. rewrite Hm, Hd. split; reflexivity.
+Qed.
+
+(* an explicit selection is taken as it is: period, filters and the content of the disk play no role *)
+Theorem explicit_selection_thm (F : fset) sl (d : disk) ps : s_files sl = Some ps ->
+  find F sl d = Good (flat_map (entry_of F) ps).
+Proof. intro H. unfold C11_fsops.find, C11_fsops.entries. rewrite H. reflexivity. Qed.
+
+(* ------------------------------------------------------------------ arguments of a single call *)
+
+Variable kcode : kwargs -> Z.
+Notation fobj := (@fobj Data).
+Notation view := (view Data kcode).
+Notation call_step := (call_step Data Bytes enc dec pack unpack kcode).
+Notation calls := (calls Data Bytes enc dec pack unpack kcode).
+
+(* {**dflt, **call}: the call's own entries win key by key, the other defaults stay *)
+Lemma kmerge_spec dflt call k :
+  klook k (kmerge dflt call) = match klook k call with Some v => Some v | None => klook k dflt end.
+Proof.
+  unfold kmerge. induction call as [|[k' v] call IH]; cbn; [reflexivity|].
+  destruct (str_eqb k k'); [reflexivity|exact IH].
+Qed.
+Lemma kmerge_nil dflt : kmerge dflt [] = dflt.
+Proof. reflexivity. Qed.
+
+(* read(p, **a): the handler gets {**defaults, **a} for THIS call; the object is as before *)
+Theorem read_with_args_thm (O : fobj) a p (d : disk) :
+  call_step O (CRead a p) d = (O, rbind (read_file (view O a []) p d) (fun x => Good (d, VData x))) /\
+  rargs (view O a []) = kcode (kmerge (o_rd O) a) /\
+  (forall k, klook k (kmerge (o_rd O) a) = match klook k a with Some v => Some v | None => klook k (o_rd O) end) /\
+  view O [] [] = FSet (o_tpl O) (o_cov O) (o_hid O) (kcode (o_rd O)) (kcode (o_wd O)) (o_post O) (o_zc O) (o_zd O).
+Proof.
+  split; [reflexivity|]. split; [reflexivity|]. split; [intro k; apply kmerge_spec|reflexivity].
+Qed.
+
+Theorem write_with_args_thm (O : fobj) a x p (d : disk) :
+  call_step O (CWrite a x p) d = (O, rbind (write_file (view O [] a) x p d) (fun d' => Good (d', VNone))) /\
+  wargs (view O [] a) = kcode (kmerge (o_wd O) a) /\
+  (forall k, klook k (kmerge (o_wd O) a) = match klook k a with Some v => Some v | None => klook k (o_wd O) end).
+Proof. split; [reflexivity|]. split; [reflexivity|]. intro k. apply kmerge_spec. Qed.
+
+(* no call changes the object *)
+Lemma call_keeps_object (O : fobj) c (d : disk) : fst (call_step O c d) = O.
+Proof. reflexivity. Qed.
+Theorem calls_keep_object_thm : forall cs (O : fobj) (d : disk), fst (calls O cs d) = O.
+Proof.
+  induction cs as [|c cs IH]; intros O d; [reflexivity|]. cbn [C11_fsops.calls].
+  destruct (call_step O c d) as [O1 r] eqn:E. assert (E1 : O1 = O) by (change O1 with (fst (O1, r)); rewrite <- E; reflexivity).
+  subst O1. destruct r as [[d1 ob]|er]; [|reflexivity].
+  specialize (IH O d1). destruct (calls O cs d1) as [O2 r2]. exact IH.
+Qed.
+
+(* hence the arguments of earlier calls do not stick: after any history of calls, a call behaves as on the
+   object as it was built, on the disk the history left *)
+Theorem args_do_not_stick_thm : forall cs (O : fobj) c (d d1 : disk) outs,
+  snd (calls O cs d) = Good (d1, outs) ->
+  calls O (cs ++ [c]) d =
+    (O, rbind (snd (call_step O c d1)) (fun r => Good (fst r, outs ++ [snd r]))).
+Proof.
+  induction cs as [|c0 cs IH]; intros O c d d1 outs H.
+  - cbn in H. injection H as <- <-. cbn [app C11_fsops.calls].
+    destruct (call_step O c d) as [O1 r] eqn:E. assert (E1 : O1 = O) by (change O1 with (fst (O1, r)); rewrite <- E; reflexivity).
+    subst O1. cbn [snd]. destruct r as [[d2 ob]|er]; reflexivity.
+  - cbn [app C11_fsops.calls] in *.
+    destruct (call_step O c0 d) as [O1 r] eqn:E. assert (E1 : O1 = O) by (change O1 with (fst (O1, r)); rewrite <- E; reflexivity).
+    subst O1. destruct r as [[d2 ob]|er]; [|cbn in H; discriminate].
+    destruct (calls O cs d2) as [O2 r2] eqn:E2. cbn [snd] in H.
+    destruct r2 as [[d3 outs3]|er]; [|cbn in H; discriminate]. cbn [rbind fst snd] in H. injection H as <- <-.
+    rewrite (IH O c d2 d3 outs3) by (rewrite E2; reflexivity).
+    destruct (snd (call_step O c d3)) as [[d4 ob4]|er]; reflexivity.
+Qed.
+
+(* written with the write arguments of one call, read with the read arguments of another: the object comes back
+   when the two dictionaries mean the same to the handler *)
+Theorem write_read_with_args_thm (O : fobj) aw ar x p (d d' : disk) : codec_ok ->
+  kcode (kmerge (o_rd O) ar) = kcode (kmerge (o_wd O) aw) -> o_zc O = o_zd O ->
+  snd (call_step O (CWrite aw x p) d) = Good (d', VNone) ->
+  snd (call_step O (CRead ar p) d') = Good (d', VData (o_post O x)) /\ (forall r, r <> p -> dlook r d' = dlook r d).
+Proof.
+  intros Hc Ha Hz Hw. cbn [C11_fsops.call_step snd C11_fsops.step] in *.
+  destruct (write_file (view O [] aw) x p d) as [d1|er] eqn:E; [|discriminate]. cbn [rbind] in Hw. injection Hw as <-.
+  change (write_file (view O [] aw) x p d) with (write_file (view O ar aw) x p d) in E.
+  destruct (write_read_thm (view O ar aw) x p d d1 Hc Ha Hz E) as [Hr Hfr].
+  change (read_file (view O ar []) p d1) with (read_file (view O ar aw) p d1). rewrite Hr. split; [reflexivity|exact Hfr].
 Qed.
 
 End Proofs.
